@@ -92,6 +92,16 @@ def build(pa, rng, count, rep):
         shape = rng.choice(shapes)
         kind = kinds[it % len(kinds)]          # systematic: every (dissimilarity, transformation) combination
         c = big_continuum(pa, rng, shape, labels, unlabelled=0.3 if kind == "comb_abs_mixed" else 0.0)
+        if it % 6 == 5 and kind != "comb_abs_mixed":
+            # crowded: long units over the same stretch of time, thousands of candidates with small, close costs
+            from pyannote.core import Segment
+            c = pa.Continuum()
+            k = rng.choice([30, 45])
+            for a in ("ann_0", "ann_1"):
+                for _ in range(k):
+                    s0 = float(rng.randint(0, 40))
+                    c.add(a, Segment(s0, s0 + float(rng.randint(30, 60))), rng.choice(labels))
+            shape = (2, k)
         if kind == "comb_abs_mixed":           # labelled and unlabelled units mixed, default combined dissimilarity
             kind = "comb_abs"
             mixed = True
